@@ -347,3 +347,18 @@ def on_ok_arm(body, call, bb):
                 if body.dominates(t, bb) and not any(body.dominates(x, bb) for x in bad_t if x != t):
                     return True
     return False
+
+
+def controlling_switches(body, bb):
+    """Switch blocks on which `bb` is control dependent (approximation: dominating switches from some successor
+    of which `bb` cannot be reached).  -> [(switch_bb, subject_expr, names)]"""
+    out = []
+    for b in sorted(body.reachable()):
+        t = body.term(b)
+        if t["k"] != "switch" or b == bb or not body.dominates(b, bb):
+            continue
+        if all(bb in body.blocks_reachable_from(x) for x in body.succs(b)):
+            continue
+        info = body.switch_info(b)
+        out.append((b, info[0] if info else body.expr(t["discr"]), info[3] if info else None))
+    return out
